@@ -305,7 +305,8 @@ class Collector:
             for viol in obs:
                 if check_sig and viol.get("want") and viol.get("node_calls") and not viol["sig"].startswith("unmonitored") \
                         and viol["symptom"] not in ("panic", "value-changes-between-calls"):
-                    mine = signature(viol["node"], viol["node_calls"], viol["want"], viol["node_denotation"], case["table"])
+                    mine = signature(viol["node"], viol["node_calls"], viol["want"], viol.get("node_denotation") or [],
+                                     case["table"])
                     if mine != viol["sig"]:
                         raise Inconclusive("signature mismatch between harness and check: %r vs %r" % (viol["sig"], mine))
                 size = (len(viol.get("node_calls") or []), len(viol.get("top_calls") or []),
@@ -344,8 +345,12 @@ def describe(viol, tab):
         calls.append(s)
     want = viol.get("want") or {}
     w = str(want.get("v")) if want.get("ok") else "false"
+    dd = viol.get("node_denotation") or []
+    shown = " ".join(fmt_id(tab, r) for r in dd[:10]) + (" ... (%d values)" % len(dd) if len(dd) > 10 else "")
+    if len(calls) > 8:
+        calls = ["..."] + calls[-8:]
     return "%s over {%s}: calls %s; the specification says the last call gives %s (%s%s) [top-level query %s, calls %s, index %s, kind %s/%s]" % (
-        viol["node"], " ".join(fmt_id(tab, r) for r in viol.get("node_denotation") or []), " ".join(calls), w,
+        viol["node"], shown, " ".join(calls), w,
         viol["symptom"], (" " + viol["got_id"]) if viol.get("got_id") else "", qstr(viol["query"]),
         ",".join(viol.get("top_calls") or []), canon(viol.get("idx")), viol.get("kind"), viol.get("profile"))
 
